@@ -123,18 +123,57 @@ theorem ctTranslateBalanced_valid_prime : type_of% @HC.ctTranslateBalanced_valid
 /-- Y3 / Y4 refusal: an empty operand is refused by the dyadic product -/
 theorem ctMultiplyDyadic_refuse_empty : type_of% @HC.ctMultiplyDyadic_refuse_empty := @HC.ctMultiplyDyadic_refuse_empty
 
-/-- Y2 + Y4 `multiply` (CKKS product / dyadic step): on valid non-empty NTT-form operands the model ALWAYS succeeds, the result
-    has `n1 + n2 − 1` canonical polynomials, and it is valid IF AND ONLY IF `n1 + n2 − 1 ≤ 16`.  (The Rust code refuses the
-    oversize case through `Ciphertext::resize`; the model does not refuse, it returns an object that `ctValid` rejects.) -/
+/-- Y2 + Y4 `multiply` (CKKS product / dyadic step): on valid non-empty NTT-form operands whose product fits
+    (`n1 + n2 − 1 ≤ 16`) the model succeeds, and the result has `n1 + n2 − 1` canonical polynomials and is VALID.  (Oversize
+    products are refused, as `Ciphertext::resize` does in the code: `ctMultiplyDyadic_valid_or_refused`.) -/
 theorem ctMultiplyDyadic_valid : type_of% @HC.ctMultiplyDyadic_valid := @HC.ctMultiplyDyadic_valid
+
+/-- the size check of `Ciphertext::resize_internal` with the regenerated limits `HE_CIPHERTEXT_SIZE_MIN/MAX`: a size is accepted
+    iff it is 0 or in [2, 16] (re-checked whenever `Gen/Constants.lean` changes) -/
+theorem ctResizeRefuses_eq_false_iff : type_of% @HC.ctResizeRefuses_eq_false_iff := @HC.ctResizeRefuses_eq_false_iff
+
+/-- Y4 refusal (size), as in the code (`Ciphertext::resize`: "[Invalid argument] Size invalid."): a product of more than 16
+    polynomials is refused, whatever the operands are -/
+theorem ctMultiplyDyadic_refuse_oversize : type_of% @HC.ctMultiplyDyadic_refuse_oversize := @HC.ctMultiplyDyadic_refuse_oversize
+
+/-- Y4 refusal (size) for `bgv_multiply` -/
+theorem bgvMultiply_refuse_oversize : type_of% @HC.bgvMultiply_refuse_oversize := @HC.bgvMultiply_refuse_oversize
+
+/-- Y4 refusal (size) for `bfv_multiply`: `resize` comes first; a destination size it refuses (1, or more than 16) is refused
+    whatever the operands and the level are -/
+theorem bfvMultiply_refuse_size : type_of% @HC.bfvMultiply_refuse_size := @HC.bfvMultiply_refuse_size
+
+/-- Y2 + Y4, the complete case analysis of `multiply` (CKKS product / dyadic step) on VALID operands: the model either returns a
+    VALID result of `n1 + n2 − 1` polynomials or REFUSES (error code `refused`, never another error); it refuses exactly when an
+    operand is not in NTT form, an operand is empty, or the product would have more than 16 polynomials. -/
+theorem ctMultiplyDyadic_valid_or_refused : type_of% @HC.ctMultiplyDyadic_valid_or_refused := @HC.ctMultiplyDyadic_valid_or_refused
+
+/-- for non-empty NTT-form valid operands: refused IFF the product would have more than 16 polynomials -/
+theorem ctMultiplyDyadic_refused_iff : type_of% @HC.ctMultiplyDyadic_refused_iff := @HC.ctMultiplyDyadic_refused_iff
+
+/-- Y2 + Y4 for `bgv_multiply` with a PRIME plain modulus, the complete case analysis on VALID operands: a VALID result or the
+    error `refused`; refused exactly when an operand is not in NTT form, an operand is empty, or the product would have more than 16
+    polynomials.  For composite t validity of the result additionally needs unit correction factors
+    (`bgvMultiply_valid_needs_unit`). -/
+theorem bgvMultiply_valid_or_refused : type_of% @HC.bgvMultiply_valid_or_refused := @HC.bgvMultiply_valid_or_refused
+
+/-- Y2 for `bfv_multiply` (BEHZ), with the data part (C02W): on valid non-empty coefficient-form operands at a level satisfying
+    `MulOK` (derived from the constructors: `c02w_mulOK_of_new`) whose product fits, the model succeeds and the result is VALID -/
+theorem bfvMultiply_valid : type_of% @HC.bfvMultiply_valid := @HC.bfvMultiply_valid
+
+/-- Y2 + Y4 for `bfv_multiply`, the complete case analysis on VALID operands at a `MulOK` level: a VALID result or the error
+    `refused` (never another error: no overflow / out-of-range branch of the BEHZ pipeline is reachable); refused exactly when an
+    operand is in NTT form, an operand is empty, or the product would have more than 16 polynomials -/
+theorem bfvMultiply_valid_or_refused : type_of% @HC.bfvMultiply_valid_or_refused := @HC.bfvMultiply_valid_or_refused
 
 theorem ctMultiplyDyadic_preserves_valid : type_of% @HC.ctMultiplyDyadic_preserves_valid := @HC.ctMultiplyDyadic_preserves_valid
 
 /-- Y4: the size law of the product, from `.ok` alone (no validity needed) -/
 theorem ctMultiplyDyadic_size : type_of% @HC.ctMultiplyDyadic_size := @HC.ctMultiplyDyadic_size
 
-/-- Y2 `bgv_multiply`: on valid non-empty NTT-form BGV operands the model succeeds with correction factor `cf_a·cf_b mod t`;
-    the result is valid IF AND ONLY IF the size fits and that product is non-zero modulo t -/
+/-- Y2 `bgv_multiply`: on valid non-empty NTT-form BGV operands whose product fits (`n1 + n2 − 1 ≤ 16`; otherwise refused:
+    `bgvMultiply_refuse_oversize`) the model succeeds with correction factor `cf_a·cf_b mod t`; the result is valid IF AND ONLY IF
+    that product is non-zero modulo t -/
 theorem bgvMultiply_valid_iff : type_of% @HC.bgvMultiply_valid_iff := @HC.bgvMultiply_valid_iff
 
 /-- Y2 `bgv_multiply`, unit correction factors: the result is valid -/
@@ -233,9 +272,9 @@ theorem applyGalois_valid : type_of% @HC.applyGalois_valid := @HC.applyGalois_va
     `n1 + n2 − 1` polynomials, coefficient form and the correction factor of the first operand -/
 theorem bfvMultiply_shape_of_ok : type_of% @HC.bfvMultiply_shape_of_ok := @HC.bfvMultiply_shape_of_ok
 
-/-- Y2 for `bfv_multiply`, conditional on the data part: the result of a successful product of a valid first operand is valid iff the
-    size fits and its polynomials are canonical (size, scale and correction factor are handled here; canonicity of the output of
-    `fastbconvSk` is the part that is NOT proved) -/
+/-- Y2 for `bfv_multiply` at ANY level (no `MulOK`): the result of a successful product of a valid first operand is valid iff its
+    polynomials are canonical (the size fits because the model refuses otherwise; scale and correction factor are handled here;
+    canonicity of the output of `fastbconvSk` at a `MulOK` level is `bfvMultiply_valid`) -/
 theorem bfvMultiply_valid_iff_canon : type_of% @HC.bfvMultiply_valid_iff_canon := @HC.bfvMultiply_valid_iff_canon
 
 /-- the product of two valid size-2 NTT-form ciphertexts (CKKS, or the dyadic step of BGV) is valid of size 3, is ACCEPTED by
